@@ -972,7 +972,19 @@ func callBuiltin(caller *frame, callpos token.Pos, fn *ssa.Builtin, args []value
 		if sl, ok := fn.Type().(*types.Signature).Params().At(0).Type().Underlying().(*types.Slice); ok && caller != nil {
 			esz = caller.i.sizes.Sizeof(sl.Elem())
 		}
-		return goAppendSized(args[0].([]value), cloneCells(args[1].([]value)), esz)
+		old, add := args[0].([]value), args[1].([]value)
+		res := goAppendSized(old, cloneCells(add), esz)
+		if caller != nil && caller.i.sched.raceActive() {
+			caller.raceSlice(add, false, "a slice element (append source)")
+			if len(add) > 0 {
+				if cap(old) >= len(old)+len(add) {
+					caller.raceSlice(res[len(old):], true, "a slice element (append in place)")
+				} else {
+					caller.raceSlice(old, false, "a slice element (append reallocation)")
+				}
+			}
+		}
+		return res
 
 	case "copy": // copy([]T, []T) int or copy([]byte, string) int
 		src := args[1]
@@ -983,13 +995,19 @@ func callBuiltin(caller *frame, callpos token.Pos, fn *ssa.Builtin, args []value
 		case symstr:
 			src = []value(append(symstr(nil), sv...))
 		}
-		return copy(args[0].([]value), cloneCells(src.([]value)))
+		n := copy(args[0].([]value), cloneCells(src.([]value)))
+		if caller != nil && caller.i.sched.raceActive() {
+			caller.raceSlice(src.([]value)[:n], false, "a slice element (copy source)")
+			caller.raceSlice(args[0].([]value)[:n], true, "a slice element (copy destination)")
+		}
+		return n
 
 	case "close": // close(chan T)
 		caller.chanClose(args[0])
 		return nil
 
 	case "delete": // delete(map[K]value, K)
+		caller.raceObj(args[0].(*omap), true, "a map (delete)")
 		caller.mapDelete(args[0].(*omap), args[1])
 		return nil
 
@@ -1021,6 +1039,9 @@ func callBuiltin(caller *frame, callpos token.Pos, fn *ssa.Builtin, args []value
 		case symstr:
 			return len(x)
 		case *omap:
+			if caller != nil && x != nil {
+				caller.raceObj(x, false, "a map (len)")
+			}
 			return x.len()
 		case *ichan:
 			if x == nil {
